@@ -115,6 +115,28 @@ def judgeText (modeTok : String) (o : Obs) (t : Bytes) : Option String :=
          if rv == [v] && rf == fl.toNat then some "ok api-translated"
          else some ("corr translated-code (text glue over the scanner model) predicts " ++ showVal v ++ " " ++ String.ofList (Nat.toDigits 16 fl.toNat)))
 
+/-- the formatter `bid128_to_string` as the code-shaped model predicts it (`DecModel/Format.lean`; `C05Format.fmtCode_eq_format`):
+the parameter the translated formatter impls are run over -/
+def tsModel (x : Dec.Rs.U128) (buf : List UInt8) (upper : Bool) : Except String (Bool × List UInt8) :=
+  match fmtCode upper x.w0.toNat x.w1.toNat with
+  | some bs => .ok (true, buf ++ bs.map UInt8.ofNat)
+  | none => .error "the formatter model predicts a panic"
+
+/-- `{}`, `{:?}`, `{:E}`, `{:e}`: the translated `impl Display / Debug / UpperExp / LowerExp for d128` (`Api3.run3f`) over `tsModel` -/
+def judgeFmt (o : Obs) (bits : Nat) : Option String :=
+  match Dec.Gen.Api3.run3f tsModel o.op ⟨UInt64.ofNat (bits % 2 ^ 64), UInt64.ofNat (bits / 2 ^ 64)⟩ [] with
+  | none => none
+  | some (.error why) =>
+    (match o.out with
+     | none => some "ok api-panic-agrees"
+     | some _ => some ("corr translated-code predicts a panic (" ++ why ++ "), the compiled formatter impl returned"))
+  | some (.ok (okv, bs)) =>
+    (match o.out with
+     | none => some "corr translated-code returns, the compiled formatter impl panicked"
+     | some (rv, rf) =>
+       if okv && rv == [.s (bs.map UInt8.toNat)] && rf == o.flagsIn then some "ok api-translated"
+       else some "corr translated-code (formatter impl over the formatter model) predicts another text")
+
 def judgeApi (modeTok : String) (o : Obs) : String :=
   let mode := if modeTok == "-" || modeTok == "N" then Dec.Gen.Api.defaultMode else HkGen.rmode o.mode
   let args := o.args.foldr (fun a acc => match toAVal a, acc with
@@ -139,6 +161,7 @@ def judgeApi (modeTok : String) (o : Obs) : String :=
     | _ => none
   let text? : Option String := match o.args with
     | [.s t] => judgeText modeTok o t
+    | [.d bits] => judgeFmt o bits
     | _ => none
   match text? with
   | some why => why
